@@ -37,10 +37,17 @@ MODELS = {
     27: ("AnyManifold(std::vector<SE2d>)", "A", list(range(5))),
     28: ("AnyManifold(std::variant<SO3d,double,Vector2d>)", "A", list(range(3))),
     29: ("AnyManifold(SubManifold<SE2d>)", "A", list(range(8))),
+    # ragged containers of run-time-dof elements nested in the other adaptors (shape mod 5 = container size)
+    30: ("SubManifold<std::vector<VectorXd>>", "S", list(range(10))),
+    31: ("AnyManifold(std::vector<VectorXd>)", "A", list(range(10))),
+    32: ("std::variant<std::vector<VectorXd>,SO3d>", "W", [0, 2, 4, 6, 8, 1]),
 }
+# models that must be observed (dof, rplus, rt1, rminus) on a RAGGED container: elements of different run-time dof,
+# the first one not the average (the spec derives the tag from the recorded values)
+RAGGED_MODELS = (13, 15, 16, 17, 30, 31, 32)
 # extra shapes in the thorough tier: nested containers get more structural variety (the code's first choice is
 # shape mod n, nested choices are hashed from the whole code)
-EXTRA_SHAPES = {13: 15, 15: 25, 16: 25, 17: 15, 19: 12, 9: 0}
+EXTRA_SHAPES = {13: 15, 15: 25, 16: 25, 17: 15, 19: 12, 9: 0, 30: 20, 31: 10, 32: 10}
 
 SPEC_MUTANTS = ["cast_swap", "any_share", "any_share_assign", "sub_skip_last", "vec_cntr", "vec_idx_static", "variant_swap"]
 ALL_OPS = ["construct", "copy", "assign", "cast", "rplus", "rminus", "mutate", "dof", "rt1", "rt2", "rt2t", "twin"]
@@ -192,7 +199,7 @@ def plan_programs(by_kind, tier, seed):
             shapes += [len(shapes) + 5 * k + (k % 5) for k in range(1, EXTRA_SHAPES[m] + 1)]
         per = max(cfg["per_shape"], -(-cfg["per_model"] // len(shapes)))
         ops = [o for o in ALL_OPS if not (kind == "A" and o == "cast")]
-        sweep = [o for o in (SWEEP_OPS if kind in ("S",) else ["rplus", "rt1", "rminus"]) if o in ops]
+        sweep = [o for o in (SWEEP_OPS if kind in ("S",) else ["rplus", "rt1", "rminus", "dof"]) if o in ops]
         progs, hid = [], 0
         for k, sh in enumerate(shapes):
             # every shape gets the sweep operations; the first shape of a model gets every operation
@@ -324,7 +331,13 @@ def required_cells(oc, plan):
                 missing.append(f"{name}|{op}")
     # exhaustive sweeps, from the shapes the SPEC derived out of the recorded values
     def shapes_seen(name, op):
-        return {k.split("|")[2] for k in keys if k.startswith(f"{name}|{op}|")}
+        return {k.split("|")[2].split("~")[0] for k in keys if k.startswith(f"{name}|{op}|")}
+    for m in RAGGED_MODELS:
+        if m not in plan:
+            continue
+        for op in ("dof", "rplus", "rt1", "rminus"):
+            if not any(k.startswith(f"{MODELS[m][0]}|{op}|") and "~ragged" in k for k in keys):
+                missing.append(f"{MODELS[m][0]}|{op}: no ragged container")
     for m, n in ((20, 8), (21, 8), (22, 64), (23, 16), (24, 8)):
         if m not in plan:
             continue
